@@ -808,11 +808,14 @@ def step (rx : String → String → Bool) (opIdx : Nat) (w : World) : Op → Wo
       match construct rx opIdx name decl with
       | .error e => (w, ⟨.ctorError 0 e, [], []⟩)
       | .ok raw =>
-        -- src: Parameters.add_parameter — type.__setattr__ first, then _initialize_parameter:
-        -- the Parameter stays installed even when the merge raises
+        -- src: Parameters.add_parameter — type.__setattr__ first, then _initialize_parameter inside
+        -- try/except: when the merge raises, the previous class attribute is restored (or the
+        -- attribute deleted) before re-raising, so the class is left as it was
         let r := inherit rx opIdx name raw (w.supers m.tail name)
-        ({ w with params := fun k n => if k = cls ∧ n = name then some r.param else w.params k n },
-         ⟨if r.outcome == .ok then .ok else .mergeError 0 r.outcome, [(name, raw)], [(name, r)]⟩)
+        if r.outcome == .ok then
+          ({ w with params := fun k n => if k = cls ∧ n = name then some r.param else w.params k n },
+           ⟨.ok, [(name, raw)], [(name, r)]⟩)
+        else (w, ⟨.mergeError 0 r.outcome, [(name, raw)], [(name, r)]⟩)
 
 def run (rx : String → String → Bool) : List Op → Nat → World → List StepObs → World × List StepObs
   | [], _, w, acc => (w, acc.reverse)
